@@ -742,9 +742,94 @@ func runC20(c *core.Ctx) {
 		c20MatchProducts(c, id, cl, w, o, fn, last, lastProducts)
 		removeAll(root)
 	}
+	c20ManyMismatches(c, bin, fast[0])
 	c.Obs("cli_and_library_agree", agree)
 	c.Obs("honest_chains_accepted", honestOK)
 	c.Obs("tampered_chains_rejected", tamperOK)
+}
+
+// c20ManyMismatches: `match-products` reports "no match" through its exit status however many
+// artifacts differ - also when the number of differences is a multiple of 256 (an exit status
+// is eight bits wide). A link over 600 files (made by the library), then exactly k differences
+// (modified + removed + added), k in {1, 255, 256, 257, 512}; output lines and exit status
+// are compared with InTotoMatchProducts.
+func c20ManyMismatches(c *core.Ctx, bin string, key gen.KeyPair) {
+	if c.Shard != 3%c.NShards {
+		return
+	}
+	ok := int64(0)
+	for _, k := range []int{0, 1, 255, 256, 257, 512} {
+		id := fmt.Sprintf("match-products-many/%d", k)
+		if !c.Want(id) {
+			continue
+		}
+		root := filepath.Join(c.WorkDir, fmt.Sprintf("c20-many-%d", k))
+		removeAll(root)
+		proj := filepath.Join(root, "proj")
+		mkdirs(proj)
+		for i := 0; i < 600; i++ {
+			os.WriteFile(filepath.Join(proj, fmt.Sprintf("f%04d.txt", i)), []byte(fmt.Sprintf("content %d\n", i)), 0644)
+		}
+		os.Chdir(root)
+		md, err := intoto.InTotoRun("many", "", nil, []string{"proj"}, nil, key.Priv, []string{"sha256"}, nil, nil, false, false, false)
+		if err != nil {
+			c.Inconclusive("harness: cannot make the link over 600 files: " + err.Error())
+			continue
+		}
+		linkPath := filepath.Join(root, "many.link")
+		if err := md.Dump(linkPath); err != nil {
+			c.Inconclusive("harness: cannot write the link: " + err.Error())
+			continue
+		}
+		// k differences: a third modified, a third removed, the rest added
+		mod, rem := k/3, k/3
+		add := k - mod - rem
+		for i := 0; i < mod; i++ {
+			os.WriteFile(filepath.Join(proj, fmt.Sprintf("f%04d.txt", i)), []byte("changed\n"), 0644)
+		}
+		for i := 0; i < rem; i++ {
+			os.Remove(filepath.Join(proj, fmt.Sprintf("f%04d.txt", 300+i)))
+		}
+		for i := 0; i < add; i++ {
+			os.WriteFile(filepath.Join(proj, fmt.Sprintf("new%04d.txt", i)), []byte("new\n"), 0644)
+		}
+		l := md.GetPayload().(intoto.Link)
+		a, b, d, lerr := intoto.InTotoMatchProducts(&l, []string{"proj"}, []string{"sha256"}, nil, nil)
+		if lerr != nil || len(a)+len(b)+len(d) != k {
+			c.Inconclusive(fmt.Sprintf("harness: the library reports %d differences (error %v) where %d were made", len(a)+len(b)+len(d), lerr, k))
+			continue
+		}
+		cmd := exec.Command(bin, "match-products", "-l", linkPath, "-p", "proj")
+		cmd.Dir = root
+		var so, se bytes.Buffer
+		cmd.Stdout, cmd.Stderr = &so, &se
+		c.Begin(id)
+		rerr := cmd.Run()
+		c.End(id)
+		c.Eval(2)
+		exit := 0
+		if rerr != nil {
+			exit = -1
+			if ee, isExit := rerr.(*exec.ExitError); isExit {
+				exit = ee.ExitCode()
+			}
+		}
+		lines := 0
+		for _, ln := range strings.Split(so.String(), "\n") {
+			if strings.TrimSpace(ln) != "" {
+				lines++
+			}
+		}
+		c.Class("match-products-many", k)
+		if (exit == 0) != (k == 0) || lines != k {
+			c.Violation(fmt.Sprintf("`match-products` (exit %d, %d report lines) does not report the library's answer (%d artifacts differ)", exit, lines, k), id, map[string]any{"differences": k, "exit": exit, "report_lines": lines, "stderr": trunc(se.String())})
+		} else {
+			ok++
+		}
+		os.Chdir(c.WorkDir)
+		removeAll(root)
+	}
+	c.Obs("match_products_many_agree", ok)
 }
 
 // sameSizeRewrite is what `vhelper fsop samesize` makes of a file's content.
@@ -834,12 +919,12 @@ func init() {
 	core.Register(&core.Property{
 		ID:    "C20",
 		Level: "exploration",
-		Rule: "seeded supply chains of 1-3 steps carried out ONLY through the built `in-toto` binary: per step `run` or `record start` / (changes by hand) / `record stop`, options drawn from {`verify` without -d from the directory that holds the links, certificate chain over two intermediates passed as two -i files, link files kept in a store directory with symbolic links in the metadata directory, key files that are symbolic links into a store directory, first step delegated to a one-step sublayout (signed with `in-toto sign`, inner step carried out with `run -d <links>/<step>.<keyid8>`), product named with a comma and passed to `run -p` by its own path, artifacts passed as single files spelled ./proj/<file> with the strip prefix spelled ./proj/, a file that every step's command rewrites in place (other content, same size, modification time restored) and that is material and product of each step, step names and metadata directory with brackets, product names with non-ASCII characters, layout file signed as an earlier revision / revised in place / signed again with the same keys, --use-dsse, -c certificate with the CA in the layout (the certificate issued directly or by an intermediate CA that only `verify -i` supplies), -l strip prefix, -d metadata directory, --run-dir, -x, -e exclude}, step commands that are quiet / print several lines / write to stderr only; in a third of the chains the last step is carried out twice (a noisy first attempt, then the real one, both writing the same link path); layout written by the harness and signed with `in-toto sign` by 1-2 keys; link names checked against the verifier's naming; then `verify` on the honest chain and after each of 15 single tamperings (product byte, extra file, link content, link signature, link missing, link renamed, layout content - verified with all, only the first and only the last signer key -, layout signed by an outsider, wrong -k, extra -k of a non-signer, an unloadable / missing key file listed before a good one, expired layout), each time compared with library verification of a byte-identical copy; `sign --verify` with signer / outsider keys, `key id` on a key and on a non-key, `match-products` on untouched and locally changed products compared with InTotoMatchProducts. " +
+		Rule: "seeded supply chains of 1-3 steps carried out ONLY through the built `in-toto` binary: per step `run` or `record start` / (changes by hand) / `record stop`, options drawn from {`verify` without -d from the directory that holds the links, certificate chain over two intermediates passed as two -i files, link files kept in a store directory with symbolic links in the metadata directory, key files that are symbolic links into a store directory, first step delegated to a one-step sublayout (signed with `in-toto sign`, inner step carried out with `run -d <links>/<step>.<keyid8>`), product named with a comma and passed to `run -p` by its own path, artifacts passed as single files spelled ./proj/<file> with the strip prefix spelled ./proj/, a file that every step's command rewrites in place (other content, same size, modification time restored) and that is material and product of each step, step names and metadata directory with brackets, product names with non-ASCII characters, layout file signed as an earlier revision / revised in place / signed again with the same keys, --use-dsse, -c certificate with the CA in the layout (the certificate issued directly or by an intermediate CA that only `verify -i` supplies), -l strip prefix, -d metadata directory, --run-dir, -x, -e exclude}, step commands that are quiet / print several lines / write to stderr only; in a third of the chains the last step is carried out twice (a noisy first attempt, then the real one, both writing the same link path); layout written by the harness and signed with `in-toto sign` by 1-2 keys; link names checked against the verifier's naming; then `verify` on the honest chain and after each of 15 single tamperings (product byte, extra file, link content, link signature, link missing, link renamed, layout content - verified with all, only the first and only the last signer key -, layout signed by an outsider, wrong -k, extra -k of a non-signer, an unloadable / missing key file listed before a good one, expired layout), each time compared with library verification of a byte-identical copy; `sign --verify` with signer / outsider keys, `key id` on a key and on a non-key, `match-products` on untouched and locally changed products compared with InTotoMatchProducts; `match-products` against a link over 600 files after exactly 0, 1, 255, 256, 257 and 512 differences (exit status and number of report lines). " +
 			"non-trivial = the chain reached `verify`; distinct = (option set, tampering)",
 		Assumptions: []string{"the inspection of the generated layout runs in the directory `verify` is started in (a separate final-product directory)", "open known finding F6 also shows here: --use-dsse together with -c"},
 		Workers:     func(string) int { return 16 },
 		Floors: func(string) map[string]int64 {
-			return map[string]int64{"honest_chains_accepted": 30, "tampered_chains_rejected": 300, "match_products_agree": 60}
+			return map[string]int64{"honest_chains_accepted": 30, "tampered_chains_rejected": 300, "match_products_agree": 60, "match_products_many_agree": 6}
 		},
 		Run:      runC20,
 		TimeoutS: func(t string) int { return 2400 },
